@@ -98,10 +98,9 @@ pub fn monitor(trace: &Trace, stepping: Stepping, horizon: u64, l: &mut Local) {
                         id.rtype == wire::T_PTR && wire::names_eq_nocase(&id.name, name)
                     }
                 }) {
+                    // (marks only ever explain a query here, so the marks of one-second records count as well:
+                    // the crate does refresh them, which C11 leaves open)
                     let _ = id;
-                    if life.ttl <= 1 {
-                        continue;
-                    }
                     let pcts: &[u64] = if *is_host { &[800] } else { &[800, 850, 900, 950] };
                     // marks of every reception inside the life (a fresh copy restarts the schedule)
                     for (k, (t_rx, ttl)) in life.receptions.iter().enumerate() {
